@@ -503,3 +503,12 @@ func verifFSSet(path string, exists bool) {
 		os.RemoveAll(path)
 	}
 }
+
+func verifExplore(preemptions int) {}
+func verifJoin()                   { time.Sleep(200 * time.Millisecond) }
+func verifLiveThreads() int        { return 0 }
+func verifFireTimers() int         { return 0 }
+
+func verifDocSlotAny(db *sql.DB, i int) verifDoc {
+	return verifScanDoc(db.QueryRow(`SELECT `+verifDocCols+` FROM documents ORDER BY id LIMIT 1 OFFSET ?1`, i))
+}
